@@ -14,6 +14,7 @@ use serde_json::{json, Value};
 
 pub mod components;
 pub mod gadgets;
+pub mod protocol;
 #[macro_use]
 pub mod widths;
 pub mod rows;
@@ -26,6 +27,9 @@ pub struct Ctx {
     /// real build only: variable values taken from the file named by
     /// VERIF_ENV (replay of solver models)
     pub env_override: Option<serde_json::Map<String, Value>>,
+    /// symbolic build only: VERIF_CONCRETE=1 runs the drivers on concrete
+    /// values (replay with a scripted random oracle)
+    pub concrete: bool,
 }
 
 pub fn splitmix(mut x: u64) -> u64 {
@@ -82,7 +86,8 @@ impl Ctx {
                 _ => panic!("VERIF_ENV must be an object"),
             }
         });
-        Ctx { seed, vars: vec![], outs: vec![], meta: Default::default(), env_override }
+        let concrete = cfg!(not(feature = "sym")) || std::env::var("VERIF_CONCRETE").is_ok();
+        Ctx { seed, vars: vec![], outs: vec![], meta: Default::default(), env_override, concrete }
     }
 
     /// a free variable
@@ -90,16 +95,17 @@ impl Ctx {
         if let Some((_, v)) = self.vars.iter().find(|(n, _)| n == name) {
             return *v;
         }
-        #[cfg(feature = "sym")]
-        let v = dusk_bls12_381::sym::var(name);
-        #[cfg(not(feature = "sym"))]
-        let v = match &self.env_override {
+        let conc = |s_: &Self| match &s_.env_override {
             Some(m) => match m.get(name) {
                 Some(Value::String(h)) => from_hex(h),
-                _ => concrete_from_name(self.seed, name),
+                _ => concrete_from_name(s_.seed, name),
             },
-            None => concrete_from_name(self.seed, name),
+            None => concrete_from_name(s_.seed, name),
         };
+        #[cfg(feature = "sym")]
+        let v = if self.concrete { conc(self) } else { dusk_bls12_381::sym::var(name) };
+        #[cfg(not(feature = "sym"))]
+        let v = conc(self);
         self.vars.push((name.to_string(), v));
         v
     }
@@ -107,6 +113,9 @@ impl Ctx {
     pub fn scalar_json(&self, s: &BlsScalar) -> Value {
         #[cfg(feature = "sym")]
         {
+            if self.concrete {
+                return json!(hex(s));
+            }
             json!(dusk_bls12_381::sym::id_of(s))
         }
         #[cfg(not(feature = "sym"))]
@@ -127,7 +136,12 @@ impl Ctx {
     pub fn finish(self) -> Value {
         let mut o = serde_json::Map::new();
         #[cfg(feature = "sym")]
-        {
+        if self.concrete {
+            o.insert("mode".into(), json!("sym-build-concrete"));
+            let env: serde_json::Map<String, Value> =
+                self.vars.iter().map(|(n, v)| (n.clone(), json!(hex(v)))).collect();
+            o.insert("env".into(), Value::Object(env));
+        } else {
             o.insert("mode".into(), json!("sym"));
             let nodes: Value =
                 serde_json::from_str(&dusk_bls12_381::sym::dump_nodes_json()).unwrap();
